@@ -723,8 +723,9 @@ func (p *Parser) ParseIfStatement() (*ast.IfStatement, error) {
 				if err != nil {
 					return nil, errors.WithStack(err)
 				}
-				// And restore the leading comments
-				another.Leading = leading
+				// And restore the leading comments, in front of the comments between
+				// "else" and "if" (the Leading of the IF token), which must not be lost
+				another.Leading = append(append(ast.Comments{}, leading...), another.Leading...)
 
 				stmt.Another = append(stmt.Another, another)
 				continue
